@@ -10,3 +10,4 @@ def check(ctx, prog):
     capacity.rule_stack_height(ctx, prog, want=("R-CAPACITY",))
     search.rule_solve_one(ctx, prog, want=("R-CAPACITY",))
     capacity.rule_probe_guard(ctx, prog)
+    capacity.rule_narrow_convert(ctx, prog)
